@@ -108,6 +108,12 @@ def determinism_stage(tier_, key):
             J.seed_job(corpus.cfg(P, 150, 300, muts=corpus.MUTS, rate=0.5, ext=True, buf=True))
             J.bytes_job(corpus.cfg(P, 150, 300, muts=corpus.MUTS, rate=0.5, unsafe=True), blen=4000)
             J.seed_job(corpus.cfg(P))
+            # fuzzer input that runs out in the middle of the generation (fallback draws, partially filled
+            # payloads): whatever the fallback path reads must not depend on what the thread did before
+            for k in range(30 if q else 200):
+                J.bytes_job(corpus.cfg(P, 20, 80), blen=J.rng.choice([0, 1, 2, 3, 5, 8, 13, 21, 34, 55, 89, 144, 200]))
+            for kind in ("empty", "zero", "ff"):
+                J.bytes_job(corpus.cfg(P, 20, 80, muts=corpus.MUTS, rate=0.5), kind=kind, blen=16)
             # configurations that differ in ONE setting, generated in different orders by the threads /
             # processes: anything cached across generator instances under too coarse a key shows up
             grp = []
